@@ -13,7 +13,8 @@ Lemma gen_write_long_plan_eq value mtu :
   gen_write_long_plan value mtu = (nb_chunks (length value) (mtu - 5), mtu - 5, 0).
 Proof.
   unfold gen_write_long_plan, nb_chunks. py_unfold.
-  destruct (0 <? length value mod (mtu - 5)); repeat (f_equal; try lia).
+  repeat match goal with |- context [if ?c then _ else _] => destruct c eqn:? end;
+    repeat (f_equal; try lia).
 Qed.
 
 (** 6 <= ATT_MTU < 65536 (a chunk holds at least one byte; the MTU is a 16-bit field) and a
@@ -28,11 +29,11 @@ Qed.
 
 Lemma gen_write_long_chunk_eq value offset cs echoed :
   gen_write_long_chunk value offset cs echoed = slice offset (offset + cs) value.
-Proof. reflexivity. Qed.
+Proof. unfold gen_write_long_chunk. rewrite py_slice_slice. f_equal; lia. Qed.
 
 Lemma gen_write_long_next_offset_eq value offset cs echoed :
   gen_write_long_next_offset value offset cs echoed = offset + length echoed.
-Proof. reflexivity. Qed.
+Proof. unfold gen_write_long_next_offset. py_unfold. lia. Qed.
 
 (** The model's Prepare Write loop and [write_long_nolock] over the generated arithmetic:
     only the message exchange (xfer / wait / error mapping) is hand-written. *)
